@@ -403,6 +403,45 @@ func (d *DB) Quiesce(timeout time.Duration) bool {
 	}
 }
 
+// QuiesceReplay waits after a reopen until the replay of the WAL tail (the entries after the
+// persisted offsets; none after a clean close) has settled: the processed counters of all
+// tables have not moved for a while and everything handed over has been applied.
+func (d *DB) QuiesceReplay(timeout time.Duration) bool {
+	deadline := time.Now().Add(timeout)
+	last := int64(-1)
+	stableSince := time.Now()
+	for {
+		var sum int64
+		applied := true
+		d.mu.Lock()
+		for t := range d.tables {
+			sum += d.VerifProcessed(t)
+			if !d.VerifAllApplied(t) {
+				applied = false
+			}
+		}
+		d.mu.Unlock()
+		if sum != last || !applied {
+			last = sum
+			stableSince = time.Now()
+		} else if time.Since(stableSince) > 60*time.Millisecond {
+			// what was replayed counts as inserted from now on
+			d.mu.Lock()
+			for t, stream := range d.tables {
+				if n := d.VerifProcessed(t); n > d.inserted[stream] {
+					d.inserted[stream] = n
+				}
+			}
+			d.mu.Unlock()
+			return true
+		}
+		if time.Now().After(deadline) {
+			return false
+		}
+		time.Sleep(2 * time.Millisecond)
+	}
+}
+
 // RawRow is one row of a raw table scan.
 type RawRow struct {
 	Key  map[string]interface{}
